@@ -1,15 +1,27 @@
 #!/bin/bash
-# try_seed.sh <seed-dir> <Cxx> [tier]  — apply seeded/<id>/patch.diff in a scratch worktree of /repo HEAD,
-# run the check for property Cxx against it in isolated mode, record the outcome in <seed-dir>/detect-<Cxx>.txt
+# try_seed.sh <seed-dir> <Cxx> [tier]
+# Apply <seed-dir>/patch.diff in a scratch worktree of /repo HEAD and run the check for property Cxx
+# against it in isolated mode (VERIF_REPO). A CONTROL run of the same check on the unpatched HEAD
+# in the same isolated configuration is made first (cached per property and HEAD): a seed counts as
+# DETECTED only if the control is clean (rc 0, no VIOLATION line) and the patched run raises a
+# VIOLATION. The outcome is recorded in <seed-dir>/detect-<Cxx>.txt. Serial use only (one fixed
+# worktree, so cargo and lake builds are incremental).
 set -u
 D=$(realpath "$1"); P=$2; TIER=${3:-quick}
 NAME=$(basename "$D")
-WT=/tmp/tryseed/$NAME-$P
+WT=/tmp/tryseed/wt
 mkdir -p /tmp/tryseed
-git -C /repo worktree add -q --detach "$WT" HEAD || exit 2
-cd "$WT"
+exec 9>/tmp/tryseed/lock; flock 9
+HEAD=$(git -C /repo rev-parse --short HEAD)
+if [ ! -d "$WT" ]; then git -C /repo worktree add -q --detach "$WT" HEAD || exit 2; fi
+cd "$WT"; git checkout -q -- . ; git clean -fdq; git checkout -q --detach "$(git -C /repo rev-parse HEAD)"
+CTRL=/tmp/tryseed/control-$P-$HEAD-$TIER.txt
+if [ ! -f "$CTRL" ]; then
+  (cd /verif && VERIF_REPO="$WT" ./check "$P" --tier "$TIER" > /tmp/tryseed/control-$P.log 2>&1; echo "rc=$?" > "$CTRL"; grep -E "^VIOLATION" /tmp/tryseed/control-$P.log | head -3 >> "$CTRL")
+fi
+CRC=$(head -1 "$CTRL")
 if ! git apply "$D/patch.diff" 2>/dev/null; then
-  if ! patch -p1 -s < "$D/patch.diff" >/dev/null 2>&1; then echo "patch does not apply to HEAD" > "$D/detect-$P.txt"; git -C /repo worktree remove --force "$WT"; exit 3; fi
+  if ! patch -p1 -s < "$D/patch.diff" >/dev/null 2>&1; then echo "seed=$NAME property=$P: patch does not apply to HEAD $HEAD" > "$D/detect-$P.txt"; cat "$D/detect-$P.txt"; git checkout -q -- . ; git clean -fdq; exit 3; fi
 fi
 cd /verif
 START=$(date +%s)
@@ -17,11 +29,10 @@ VERIF_REPO="$WT" ./check "$P" --tier "$TIER" > /tmp/tryseed/$NAME-$P.log 2>&1
 RC=$?
 END=$(date +%s)
 {
-  echo "seed=$NAME property=$P tier=$TIER repo_head=$(git -C /repo rev-parse --short HEAD) rc=$RC wall_s=$((END-START)) date=$(date -u +%FT%TZ)"
+  echo "seed=$NAME property=$P tier=$TIER repo_head=$HEAD control:$CRC rc=$RC wall_s=$((END-START)) date=$(date -u +%FT%TZ)"
   grep -E "^VIOLATION|^KNOWN-FINDING|^# " /tmp/tryseed/$NAME-$P.log | head -12
-  if [ $RC -eq 1 ] && grep -q "^VIOLATION" /tmp/tryseed/$NAME-$P.log; then echo "DETECTED"; else echo "MISSED"; fi
+  if [ "$CRC" != "rc=0" ]; then echo "INCONCLUSIVE (control run on unpatched HEAD is not clean: $(cat $CTRL | tr '\n' ' '))";
+  elif [ $RC -eq 1 ] && grep -q "^VIOLATION" /tmp/tryseed/$NAME-$P.log; then echo "DETECTED"; else echo "MISSED"; fi
 } > "$D/detect-$P.txt"
 cat "$D/detect-$P.txt"
-git -C /repo worktree remove --force "$WT"
-TAG=$(python3 -c "import hashlib,sys;print(hashlib.md5(sys.argv[1].encode()).hexdigest()[:10])" "$WT")
-rm -rf /verif/.cache/alt-$TAG
+cd "$WT"; git checkout -q -- . ; git clean -fdq
